@@ -67,8 +67,6 @@ def render(desc, lex=None, encoding="utf-8"):
         node_id[e["name"]] = str(i + 1)
         nodes.append(E("Node", [("id", str(i + 1)), ("name", e["name"])]))
     root.add(*order(lx["order.nodes"], nodes))
-    bus = E("Bus", [("name", "Bus1")])
-    root.add(bus)
 
     def signal_el(sg, tag="Signal"):
         off = sg["start"] if sg["byte_order"] == "intel" else msb0(sg["start"])
@@ -113,35 +111,39 @@ def render(desc, lex=None, encoding="utf-8"):
             el.add(E("LabelSet", children=order(lx["order.labels"], labels)))
         return el
 
-    for fr in desc["frames"]:
-        hexid = ("0x%X" if lx["idcase"] == "upper" else "0x%x") % fr["id"]
-        a = [("id", hexid), ("name", fr["name"])]
-        need = max([max(desc_bits(s)) // 8 + 1 for s in fr["signals"]] or [0])
-        if lx["msglen"] == "explicit" or need != fr["length"]:
-            a.append(("length", str(fr["length"])))
-        elif lx["msglen"] == "auto":
-            a.append(("length", "auto"))
-        if fr["extended"]:
-            a.append(("format", "extended"))
-        elif explicit:
-            a.append(("format", "standard"))
-        m = E("Message", a)
-        if fr.get("comment") is not None:
-            m.add(E("Notes", text=fr["comment"]))
-        if fr["senders"]:
-            m.add(E("Producer", children=[E("NodeRef", [("id", node_id[s])]) for s in fr["senders"]]))
-        elif lx["emptyprod"]:
-            m.add(E("Producer"))
-        muxer = [s for s in fr["signals"] if s["mux"] and s["mux"]["role"] == "multiplexer"]
-        if muxer:
-            mx = signal_el(muxer[0], "Multiplex")
-            sels = sorted({s["mux"]["selector"] for s in fr["signals"] if s["mux"] and s["mux"]["role"] == "muxed"})
-            for sel in sels:
-                grp = [signal_el(s) for s in fr["signals"] if s["mux"] and s["mux"].get("selector") == sel]
-                mx.add(E("MuxGroup", [("count", str(sel))], children=order(lx["order.signals"], grp)))
-            m.add(mx)
-        m.add(*order(lx["order.signals"], [signal_el(s) for s in fr["signals"] if not s["mux"]]))
-        bus.add(m)
+    bus_frames = [("Bus1", desc["frames"])] + [("Bus%d" % (i + 2), b["frames"]) for i, b in enumerate(desc.get("buses", []))]
+    for bus_name, frames_of_bus in bus_frames:
+      bus = E("Bus", [("name", bus_name)])
+      root.add(bus)
+      for fr in frames_of_bus:
+          hexid = ("0x%X" if lx["idcase"] == "upper" else "0x%x") % fr["id"]
+          a = [("id", hexid), ("name", fr["name"])]
+          need = max([max(desc_bits(s)) // 8 + 1 for s in fr["signals"]] or [0])
+          if lx["msglen"] == "explicit" or need != fr["length"]:
+              a.append(("length", str(fr["length"])))
+          elif lx["msglen"] == "auto":
+              a.append(("length", "auto"))
+          if fr["extended"]:
+              a.append(("format", "extended"))
+          elif explicit:
+              a.append(("format", "standard"))
+          m = E("Message", a)
+          if fr.get("comment") is not None:
+              m.add(E("Notes", text=fr["comment"]))
+          if fr["senders"]:
+              m.add(E("Producer", children=[E("NodeRef", [("id", node_id[s])]) for s in fr["senders"]]))
+          elif lx["emptyprod"]:
+              m.add(E("Producer"))
+          muxer = [s for s in fr["signals"] if s["mux"] and s["mux"]["role"] == "multiplexer"]
+          if muxer:
+              mx = signal_el(muxer[0], "Multiplex")
+              sels = sorted({s["mux"]["selector"] for s in fr["signals"] if s["mux"] and s["mux"]["role"] == "muxed"})
+              for sel in sels:
+                  grp = [signal_el(s) for s in fr["signals"] if s["mux"] and s["mux"].get("selector") == sel]
+                  mx.add(E("MuxGroup", [("count", str(sel))], children=order(lx["order.signals"], grp)))
+              m.add(mx)
+          m.add(*order(lx["order.signals"], [signal_el(s) for s in fr["signals"] if not s["mux"]]))
+          bus.add(m)
     xl = {k[4:]: v for k, v in lx.items() if k.startswith("xml.")}
     xl["order_seed"] = lx.get("order_seed", 0)
     return xmlw.serialise(root, xl, encoding)
